@@ -11,7 +11,7 @@ from gen import sched_gsmtime
 
 LEAN_MODULES = ["OsmoVerif.Props.C08Gsmtime"]
 DRIVER_MODULES = ["SchedGsmtime"]
-LEAN_MODEL_MODULES = ["OsmoVerif.Model.SchedGsmtime", "OsmoVerif.Lemmas.SchedGsmtime"]
+LEAN_MODEL_MODULES = ["OsmoVerif.Model.SchedGsmtime", "OsmoVerif.Lemmas.SchedGsmtime", "OsmoVerif.Lemmas.SchedGsmtimeTdma"]
 ASSUMPTIONS = [
     "gsmtime part: theorems are about OsmoVerif.Model.SchedGsmtime: hand model, statement by statement, of sched_gsmtime_init, sched_gsmtime, sched_gsmtime_execute (both ifs of the loop body, the break), sched_gsmtime_reset; the llist_head lists are Lean lists of the linked event structures, the 16-element pool with its explicit -EBUSY outcome, uint32_t fn / uint16_t p3 / unsigned 32-bit fn + SCHEDULE_AHEAD; the pointer si is the constant item set it points to; tdma_schedule_set is the function of Model/TdmaSched.lean (not a copy)",
     "gsmtime part: the frame interrupt is modelled as sync.c runs it (l1Sync: traffic; tdma_sched_execute(); traffic (mframe_schedule); sched_gsmtime_execute(current_time.fn); tdma_sched_advance()); sched_gsmtime() is not re-entered from inside sched_gsmtime_execute (callers mask the frame interrupt: local_firq_save in prim_rach.c / prim_freq.c); sched_gsmtime_init() runs once on the link-time state of the lists",
@@ -357,6 +357,25 @@ def boundary_histories():
             ops += one_frame(fn)
             fn = (fn + 1) % U32
         hist.append((0, ops, "u32-wrap"))
+    # the histories of the non-vacuity examples of Props/C08Gsmtime.lean (frames without requests)
+    def set1(p1):
+        return [("i", 1, p1, 0, 0, 0), "E"]
+    set2 = [("i", 1, 11, 0, 0, 0), "F", ("i", 2, 12, 0, 5, 0), "E"]
+
+    def run(cur, reqs, fn0, n, kind="lean-example"):
+        ops = list(reqs)
+        for k in range(n):
+            ops += one_frame((fn0 + k) % MAX_FN)
+        hist.append((cur, ops, kind))
+    run(7, [("gs", 105, 9, set2)], 100, 8)
+    run(0, [("gs", 7, 70, set1(1)), ("gs", 5, 50, set1(2)), ("gs", 6, 60, set1(3)), ("gs", 5, 51, set1(4))], 2, 6)
+    run(0, [("gs", 50 + k % 3, k, set1(k)) for k in range(17)], 40, 1)
+    run(0, [("gs", 100, 1, set1(1)), ("gs", 101, 2, set1(2)), ("gs", 102, 3, set1(3)), ("gs", 103, 4, set1(4))], 100, 5)
+    run(0, [("gs", 2, 7, set1(1))], MAX_FN - 2, 5)
+    run(0, [("gs", 0, 7, set1(1)), ("gs", 1, 8, set1(2))], MAX_FN - 3, 8)
+    hist.append((0, [("gs", 1, 7, set1(1))] + one_frame(U32 - 2) + one_frame(U32 - 1) + one_frame(0), "lean-example"))
+    hist.append((0, [("gs", 5, 7, set1(1)), ("gs", 6, 8, set1(2)), ("gz",), ("gx", 3), ("gx", 4), ("gx", 3)], "lean-example"))
+    run(0, [("gs", 50, k, set1(k)) for k in range(9)], 48, 2)
     # bucket overflow in the TDMA scheduler goes unnoticed by sched_gsmtime_execute (rc ignored)
     serial[0] = 0
     ops = [ev(50, p3=k, n=2) for k in range(10)]
